@@ -64,9 +64,13 @@ class TracedDeque(deque):
             self._pre("iter")
         return deque.__iter__(self)
 
+    monitor = None      # called with (value, length before) by append()
+
     def append(self, v):
         self._pre("append")
         self._emit("append", v)
+        if self.monitor is not None:
+            self.monitor(v, deque.__len__(self))
         deque.append(self, v)
 
     def appendleft(self, v):
@@ -223,7 +227,8 @@ def run_scenario(sc, chooser=None, seed=0, max_steps=6000):
     st = {"viol": [], "hist": [], "results": {}, "maxlen_open": 0}
 
     silent = sc.get("silent", True)
-    st.update({"stalls": [], "stall_parked": set(), "alerts": 0, "external": 0, "rewaits": {}, "in_wait": set(), "livelock": None})
+    st.update({"stalls": [], "stall_parked": set(), "alerts": 0, "external": 0, "rewaits": {}, "in_wait": set(), "livelock": None,
+               "cur": {}, "fired_parks": {}})
     q = queues.Queue("Q", max=sc["max"], silent=silent, allow_add_after_close=sc["allow"])
     q.closed = Flag("closed")
     q.closed._vtag = "closed"
@@ -231,6 +236,14 @@ def run_scenario(sc, chooser=None, seed=0, max_steps=6000):
     q.queue = TracedDeque(sc["prefill"])
     q.lock.lock = ds.SchedLock()
     q.queue.guard = q.lock.lock
+
+    def append_monitor(v, n_before):
+        me = sched.me()
+        cur = st["cur"].get(me.name) if me is not None else None
+        if cur is not None and cur[0] in ("add", "add_till") and n_before >= sc["max"] and not bool(ds.raw(q.closed, "_go")):
+            st["viol"].append("C08: add(%s) without force appended to an open queue that already held %d values (max %d): it did "
+                              "not wait for room" % (v, n_before, sc["max"]))
+    q.queue.monitor = append_monitor
     sched.tag(q.lock.lock, "M")
     sched.trace(q.closed, "closed")
     tills = []
@@ -246,6 +259,15 @@ def run_scenario(sc, chooser=None, seed=0, max_steps=6000):
     def wait_wrapper(self, till=None):
         me = sched.me()
         if self is q.lock:
+            cur = st["cur"].get(me.name)
+            if cur is not None and cur[0] == "add_till" and bool(ds.raw(tills[cur[2]], "_go")):
+                # the caller's till has fired.  Once is a race (it fired between the test at the head of the loop and here);
+                # twice means the loop went round without looking at it
+                key = (me.name, id(cur))
+                st["fired_parks"][key] = st["fired_parks"].get(key, 0) + 1
+                if st["fired_parks"][key] == 2:
+                    st["viol"].append("C08: producer %s parks again although the till of its add() fired before its previous "
+                                      "wake-up: the timeout is not looked at" % me.name[1:])
             sched.note("park", me.name[1:])
             st["in_wait"].add(me)
             if till is not None and any(till is x for _, x in st["stalls"]):
@@ -305,6 +327,7 @@ def run_scenario(sc, chooser=None, seed=0, max_steps=6000):
             res = st["results"].setdefault(ti, [])
             for op in ops:
                 kind = op[0]
+                st["cur"][sched.me().name] = op
                 h = {"t": ti, "op": op, "call": len(sched.events), "ret": None, "r": None}
                 st["hist"].append(h)
                 try:
@@ -636,7 +659,7 @@ def linearizable(hist, prefill, final):
 
 def monitors(sc, lines, st, outcome, stuck, final, closed):
     """independent of Lean: FIFO/loss/duplication/order, capacity, close semantics — from the recorded history"""
-    viol = []
+    viol = list(st.get("viol", []))        # what the wrappers noticed while the run was under way
     added = []       # values in linearisation order with side
     popped = []
     spec = list(sc["prefill"])
